@@ -24,6 +24,7 @@ CaseResult runC17(const Case &c, RunCtx &ctx) {
         else r.tags.insert("refused-beyond-limit");
         return r;
     }
+    if (const char *keep = getenv("VERIF_KEEP_FILE")) { std::vector<uint8_t> kb; readBytes(path, kb); writeBytes(keep, kb); }    // debugging aid
     std::unique_ptr<ezc3d::c3d> back;
     try { back.reset(new ezc3d::c3d(path)); }
     catch (...) { Outcome e = classifyCurrentException();
